@@ -824,12 +824,18 @@ func parseSPSSccExtension(r *bits.EBSPReader, ChromaFormatIDC,
 			for i := uint(0); i <= ext.NumPalettePredictorInitializersMinus1; i++ {
 				ext.PalettePredictorInitializer[0] =
 					append(ext.PalettePredictorInitializer[0], r.Read(int(BitDepthLumaMinus8+8)))
+				if r.AccError() != nil { // Don't go on after end of data
+					return ext
+				}
 			}
 			// Fill chroma if any
 			for comp := 1; comp < numComps; comp++ {
 				for i := uint(0); i <= ext.NumPalettePredictorInitializersMinus1; i++ {
 					ext.PalettePredictorInitializer[comp] =
 						append(ext.PalettePredictorInitializer[comp], r.Read(int(BitDepthChromaMinus8+8)))
+					if r.AccError() != nil { // Don't go on after end of data
+						return ext
+					}
 				}
 			}
 		}
